@@ -261,6 +261,13 @@ def batchRepeatDeriv {n m : Nat} (o : Op n m) (θ : Param α o) {r d : Nat}
     (U : Fin r → Mat α n d) (V : Fin r → Mat α m d) : Param α o :=
   bilinDeriv o θ (d := r * d) (fun i c => U (outerIdx c) i (innerIdx c)) (fun j c => V (outerIdx c) j (innerIdx c))
 
+/-- Gradient delivered to a BROADCAST parameter (any pattern): batch member `b` reads entry `π b` of the parameter
+(`π` = the numpy broadcast restriction of the member index: size-1 and missing dimensions are dropped), and entry `k`
+receives the sum over the members that read it.  This is what ConstantMul's reduction loops, Toeplitz's / Matmul's
+`reshape(-1, …).sum(0)` and autograd's `sum_to_size` compute. -/
+def bcastSum {B K : Nat} (π : Fin B → Fin K) (g : Fin B → α) : Fin K → α :=
+  fun k => sumFin B fun b => if π b = k then g b else 0
+
 /-- The bilinear form `Σ_c Σ_i Σ_j U[i,c] · A[i,j] · V[j,c]`. -/
 def bil {n m d : Nat} (A : Mat α n m) (U : Mat α n d) (V : Mat α m d) : α :=
   sumFin d fun c => sumFin n fun i => sumFin m fun j => U i c * A i j * V j c
